@@ -485,3 +485,19 @@ Example C11_ex_rename :
   rename_key nopf (s":") ex11 (s"zz") (s"y") = Err EOther /\
   diverge ([s"a"] ++ [s"c"]) [s"a"; s"b"] = true /\ diverge ([s"a"] ++ [s"z"]) [s"a"; s"b"] = true.
 Proof. vm_compute. repeat split; discriminate. Qed.
+
+(* ---- tie to the CURRENT sources of what RenameKey decides with: Map.Exists (exists.go) over Map.ValuesForPath
+   (keyvalues.go), re-translated by go2v on every run (Gen/Pure_gen.v) and proved equal to the model functions
+   [exists_path] / [values_for_path] (GenProofs/PureG5.v, PureG7.v) *)
+From Mxj Require Import Gen.Setters_gen Gen.PureSupport Gen.Pure_gen Model.KeyValues GenProofs.PureG5 GenProofs.PureG7.
+
+Theorem C11_exists_code_is_model : forall pf st m path subkeys, g_fieldSep st <> [] ->
+  fn_Exists (run_ValuesForPath pf st) st m path subkeys
+  = of_res (exists_path pf (g_fieldSep st) (VMap m) path subkeys).
+Proof. exact exists_code_is_model. Qed.
+Print Assumptions C11_exists_code_is_model.
+
+Theorem C11_values_for_path_code_is_model : forall pf st m path subkeys, g_fieldSep st <> [] ->
+  run_ValuesForPath pf st m path subkeys = values_for_path pf (g_fieldSep st) (VMap m) path subkeys.
+Proof. exact run_ValuesForPath_eq. Qed.
+Print Assumptions C11_values_for_path_code_is_model.
